@@ -290,7 +290,7 @@ def shard(sh: Shard, seed, lo, hi, tier):
 
 def main(tier, seed):
     run = Run("C08", tier, seed, "exploration")
-    per = 14 if tier == "quick" else 150
+    per = 24 if tier == "quick" else 600
     jobs = [{"seed": seed, "lo": i * per, "hi": (i + 1) * per, "tier": tier} for i in range(NCPU)]
     run.absorb(run_shards("checks.c08", "shard", jobs, timeout=3400))
     pairs = run.sets.get("state_event_pairs", set())
